@@ -15,37 +15,29 @@ class VariableBoundMinPropagator(VariableBoundPropagator):
         raise NotImplementedError("min")
             
     def propagate(self):
-        # Obtain the max value from the
+        # Obtain the min value 
         min_v = self.min()
         
         range_l = self.target.domain.range_l
         if len(range_l) == 0:
             # Nothing left to trim
             return False
-        
-#        print("Min: range_l=" + str(range_l) + " min_v=" + str(min_v))
-
-        # Note: assume domain ranges are ordered
-        # Find the first interval where the min_v is greater than 
-        # the minimum of the interval
-        i=len(range_l)-1
-        while i >=0 and min_v <= range_l[i][0]:
-            i -= 1
-            
-#        print("  i=" + str(i))
 
         must_propagate = False
-        if i < len(range_l):
-            if i > 0:
-                # Need to trim off full range elements
-                must_propagate = True
-                self.target.domain.range_l = range_l[i:]
 
-            if min_v > range_l[0][0]:
-                range_l[0][0] = min_v
-                must_propagate = True
-        else:
-#            print("ran off the end")
-            pass
+        # Note: assume domain ranges are ordered
+        # Drop the intervals that lie entirely below the minimum
+        i = 0
+        while i < len(range_l) and range_l[i][1] < min_v:
+            i += 1
+        if i > 0:
+            range_l = range_l[i:]
+            self.target.domain.range_l = range_l
+            must_propagate = True
+
+        # Raise the lower bound of the first remaining interval
+        if len(range_l) > 0 and range_l[0][0] < min_v:
+            range_l[0][0] = min_v
+            must_propagate = True
             
         return must_propagate
